@@ -117,4 +117,42 @@ def run(res, args):
                 res.nontrivial.add(c)
             if res.evaluations % 900 == 1:
                 res.sample(dict(segments=[(k, len(b)) for k, b in segs], victim=v, mode=mode, delivered=[(t, len(r) // 2) for t, r in got]))
+    # several corrupted frames in one stream (theorems C12_any_number / C12_many_vs_uncorrupted): every victim is delivered
+    # alone as non-RTCM and every other segment as without the corruptions
+    mitems, mcases, mexps = [], [], []
+    for _ in range(300 * mult):
+        segs = gen.segments(rng, small=True)
+        frames = [i for i, (k, _) in enumerate(segs) if k == "F"]
+        if len(frames) < 2:
+            continue
+        vs = sorted(rng.sample(frames, rng.randint(2, min(4, len(frames)))))
+        bads = {v: gen.corrupt(rng, segs[v][1], rng.choice(["bit", "burst", "byte", "d3", "crc", "field"])) for v in vs}
+        stream = b"".join(bads.get(i, b) for i, (k, b) in enumerate(segs))
+        exp, run = [], []
+        for i, (k, b) in enumerate(segs):
+            if i in bads:
+                exp += [(gen.frame_type(x) if kk == "F" else -1, x.hex()) for kk, x in gen.merge_junk(run)]
+                run = []
+                exp.append((-1, bads[i].hex()))
+            else:
+                run.append((k, b))
+        exp += [(gen.frame_type(x) if kk == "F" else -1, x.hex()) for kk, x in gen.merge_junk(run)]
+        mitems.append((segs, vs, bads))
+        mcases.append("stream %d debug %s" % (framing.T0, gen.hx(stream)))
+        mexps.append(exp)
+    mimpl, mmodel = framing.run_both(res, "stream", mcases, timeout=3000)
+    if mimpl:
+        for (segs, vs, bads), c, exp, line in zip(mitems, mcases, mexps, mimpl):
+            res.evaluations += 1
+            res.count("corruption:multi-%d" % len(vs))
+            ms = framing.parse_stream_obs(line)
+            if ms is None:
+                res.add_violation(dict(case=c, obs=line), "the stream handler did not return normally")
+                continue
+            got = [(m["type"], m["raw"]) for m in ms]
+            if got != exp:
+                res.add_violation(dict(stream=c.split()[3], victim_indices=vs, corrupted=[bads[v].hex() for v in vs],
+                                       delivered=got, expected=exp),
+                                  "with several corrupted frames in one stream, a corrupted frame was not discarded alone or a neighbour was lost")
+            res.nontrivial.add(c)
     return res.finish()
